@@ -300,3 +300,81 @@ Fixpoint hive_add_peers (maxpo : N) (base : list N) (ping_ok : bool) (ps : list 
 Definition hive_peers (maxpo : N) (base : list N) (ping_ok : bool) (m : option (list hive_peer)) : res Z :=
   ps <- from_read m E_ERR ;;
   hive_add_peers maxpo base ping_ok ps.
+
+(** ===================================================================== *)
+(** * chunkinfo  (pkg/chunkinfo/message.go, queue.go, chunkinfodiscover.go) *)
+
+(** [hex.EncodeToString] (lower case), as ASCII codes: [boson.Address.String()] *)
+Definition hex_digit (n : N) : N := if n <? 10 then 48 + n else 87 + n.
+Definition hex_of (l : list N) : list N := flat_map (fun b => [hex_digit (b / 16); hex_digit (b mod 16)]) l.
+(** [hex.DecodeString] succeeds: even length, every character a hex digit of either case *)
+Definition is_hex_char (c : N) : bool :=
+  ((48 <=? c) && (c <=? 57)) || ((97 <=? c) && (c <=? 102)) || ((65 <=? c) && (c <=? 70)).
+Definition is_hex (s : list N) : bool := Nat.even (length s) && forallb is_hex_char s.
+
+(** a protobuf [map<string, bytes>] on the wire is a list of entries; in the Go map the
+    last entry of a key wins *)
+Fixpoint map_lookup (k : list N) (m : list (list N * list N)) : option (list N) :=
+  match m with
+  | [] => None
+  | (k', v) :: r => match map_lookup k r with Some v' => Some v' | None => if bytes_eqb k k' then Some v else None end
+  end.
+
+Record ci_resp := mkCIResp { cr_root : list N; cr_target : list N; cr_req : list N;
+                             cr_presence : option (list (list N * list N)) }.
+Record ci_req := mkCIReq { cq_root : list N; cq_target : list N; cq_req : list N }.
+
+(** the part of the node state the front reads, for the root named in the message:
+    number of data chunks when the pyramid is known ([getChunkSize]); whether a discovery
+    queue exists; byte length of the presence vector already on file for (root, target) *)
+Record ci_state := mkCIState { ci_self : list N; ci_chunks : option N; ci_queue : bool; ci_onfile : option nat }.
+
+Section Chunkinfo.
+  Variable fixed : bool.
+
+  (** [updateChunkInfo(rootCid, overlay, bv)] (runs in the discover worker goroutine; the
+      handler waits for it) *)
+  Definition update_chunk_info (st : ci_state) (bv : list N) : res unit :=
+    match ci_onfile st with
+    | Some _ => Val tt                          (* SetBytes: a length mismatch is an error value, logged *)
+    | None =>
+        match ci_chunks st with
+        | None => Val tt                        (* getChunkSize = 0: return *)
+        | Some v =>
+            if v =? 0 then Val tt else
+            (* bit, err := bitvector.NewFromBytes(bv, v): nil, err when len(bv)*8 < v *)
+            let bit : option unit := if N.of_nat (length bv) * 8 <? v then None else Some tt in
+            if fixed && negb (is_some bit) then Val tt          (* repaired: log and return *)
+            else _b <- deref bit ;; Val tt                       (* vb.bit.Bytes() *)
+        end
+    end.
+
+  (** the loop of [updateQueue] over the keys of the peer's map *)
+  Fixpoint queue_keys (keys : list (list N)) : res unit :=
+    match keys with
+    | [] => Val tt
+    | k :: r =>
+        (if is_hex k then Val tt                 (* boson.MustParseHexAddress(over) *)
+         else if fixed then Val tt               (* repaired: ParseHexAddress, skip *)
+         else Pan) ;;; queue_keys r
+    end.
+
+  Definition update_queue (st : ci_state) (target : list N) (presence : list (list N * list N)) : res unit :=
+    match map_lookup (hex_of target) presence with
+    | Some bv => update_chunk_info st bv
+    | None => Val tt
+    end ;;;
+    if ci_queue st then queue_keys (map fst presence) else Val tt.
+
+  (** [handlerChunkInfoResp]; [fwd_ok]: a stream to the relay destination can be opened and written *)
+  Definition chunkinfo_resp (st : ci_state) (fwd_ok : bool) (m : option ci_resp) : outcome :=
+    run (
+      resp <- from_read m E_ERR ;;
+      if bytes_eqb (cr_req resp) (ci_self st)
+      then update_queue st (cr_target resp) (match cr_presence resp with Some p => p | None => [] end)
+      else guard fwd_ok E_ERR).
+
+  (** [handlerChunkInfoReq]: answers from the neighbour table or relays; no panic-capable operation *)
+  Definition chunkinfo_req (self : list N) (fwd_ok : bool) (m : option ci_req) : outcome :=
+    run (_r <- from_read m E_ERR ;; guard fwd_ok E_ERR).
+End Chunkinfo.
